@@ -258,6 +258,7 @@ func planC09(tier string, root *simcore.RNG) *plan {
 		kinds := []c09sig{
 			{"mcu", pick(r0, model3Names), "tri", 12}, {"mco", pick(r0, model3Names), "stl", 12},
 			{"msu", pick(r0, model2Names), "svg", 24}, {"msq", pick(r0, model2Names), "dxf", 24}, {"msq", pick(r0, model2Names), "svg", 40},
+			{"msu", pick(r0, model2Names), "dxf", 64 + r0.Intn(64)}, {"mcu", pick(r0, model3Names), "stl", 40},
 			{"dc2", pick(r0, model2Names), "dxf", 16}, {"dc3v2", "sphere-box", "tri", 6}, {"dc3v1", "csg", "stl", 6},
 		}
 		cpus := []int{1, 2, 3, 4, 8, 16}
@@ -295,6 +296,7 @@ func planC09(tier string, root *simcore.RNG) *plan {
 		}
 		list := []c09sig{
 			{"msu", pick(r0, model2Names), "svg", 100 + r0.Intn(60)}, {"msq", pick(r0, model2Names), "dxf", 100 + r0.Intn(60)},
+			{"msu", pick(r0, model2Names), "dxf", 100 + r0.Intn(60)},
 			{"msq", pick(r0, model2Names), "svg", 100 + r0.Intn(60)}, {"dc2", pick(r0, model2Names), "dxf", 100 + r0.Intn(60)},
 			{"mco", pick(r0, []string{"sphere-box", "csg", "cube"}), "stl", 24 + r0.Intn(8)}, {"mcu", pick(r0, []string{"sphere-box", "csg", "cube"}), "stl", 24 + r0.Intn(8)},
 		}
@@ -319,6 +321,25 @@ func planC09(tier string, root *simcore.RNG) *plan {
 					Sites: sites, Sched: Sched{Policy: pick(r, []string{"fifo", "uniform", "lifo"}), Seed: r.Uint64()},
 					Env: Env{GOMAXPROCS: pick(r, []int{1, 2, 16}), CPUs: pick(r, []int{1, 4, 16})}, Note: "slow-consumer",
 					ConsStallMs: 3 + r.Intn(4), ConsStallEvery: pick(r, []int{1, 2, 3}), StepCap: 4000000})
+			}
+		}
+		// slow evaluations in real time: one evaluation in the middle of the render takes
+		// 2.5 s (one episode per signature) or 11 s (one episode; thorough: one per signature)
+		for si, s := range list {
+			for _, ms := range []int{2500, 11000} {
+				if ms > 5000 && tier != "thorough" && si != 6 {
+					continue
+				}
+				r := root.Fork()
+				j := s.job(1)
+				j.EvalStallMs, j.EvalStallAt = ms, 1500+r.Intn(4000)
+				sites := map[string]uint32{"close": 1, "go.start": 1}
+				for _, hs := range sinkSites(s.sink) {
+					sites[hs] = 1
+				}
+				pl.scenarios = append(pl.scenarios, &Scenario{Prop: "C09", Family: "render", Seed: r.Uint64(), Groups: [][]Job{{j}},
+					Sites: sites, Sched: Sched{Policy: "fifo"}, Env: Env{GOMAXPROCS: pick(r, []int{1, 4, 16}), CPUs: pick(r, []int{4, 16})},
+					Note: "slow-evaluation", StepCap: 4000000})
 			}
 		}
 	}
@@ -452,7 +473,7 @@ func planC09(tier string, root *simcore.RNG) *plan {
 		pl.scenarios = append(pl.scenarios, sc)
 	}
 	pl.extra = map[string]any{"signatures": len(cat), "canonical_runs": len(cat), "setter_histories": len(pairs)}
-	pl.rule = "signatures (renderer x model x resolution x sink) drawn from uniform/octree marching cubes, uniform/quadtree marching squares, 2D and 3D dual contouring x 8 3D / 5 2D models x ToTriangles/ToSTL/To3MF/ToDXF/ToSVG. Each signature is rendered once canonically (fresh process, fifo, no optional yields, all CPUs); variant episodes (fresh processes) render 1..3 signatures concurrently after 0..3 preceding renders under a seeded schedule (uniform, pct, starve(one slice of the lattice | evaluations about to store | consumer | renderer | one job), burst, lifo) with evaluations parked before and after the real Evaluate, GOMAXPROCS in {1,2,4,16} and CPU affinity in {1,2,4,16} (= worker pool size). A third of the variant episodes, and a fixed set of histories that render both setter-reachable states of a model one after the other, keep renderer values and the model object in an episode-wide pool, as a program that holds them in variables does. Every third entry of the shape catalogue (all in the thorough tier; every exported constructor and blend option) is also built and rendered in a canonical and in 1..3 other fresh processes under other configurations. Oracle: every job's output digest (triangle sequence bits; STL/DXF/SVG bytes; decoded 3MF) equals the canonical digest of its signature. Non-trivial = a variant episode in which the scheduler had >= 2 choices at >= 1 step; distinct = trace hash."
+	pl.rule = "signatures (renderer x model x resolution x sink) drawn from uniform/octree marching cubes, uniform/quadtree marching squares, 2D and 3D dual contouring x 8 3D / 5 2D models x ToTriangles/ToSTL/To3MF/ToDXF/ToSVG. Each signature is rendered once canonically (fresh process, fifo, no optional yields, all CPUs); variant episodes (fresh processes) render 1..3 signatures concurrently after 0..3 preceding renders under a seeded schedule (uniform, pct, starve(one slice of the lattice | evaluations about to store | consumer | renderer | one job), burst, lifo) with evaluations parked before and after the real Evaluate, GOMAXPROCS in {1,2,4,16} and CPU affinity in {1,2,4,16} (= worker pool size). A third of the variant episodes, and a fixed set of histories that render both setter-reachable states of a model one after the other, keep renderer values and the model object in an episode-wide pool, as a program that holds them in variables does. Renders with many batches are repeated with a slow consumer (the writer goroutine sleeps 3..6 ms of real time at every k-th hook arrival) and with one evaluation that takes 2.5 s / 11 s of real time. Every third entry of the shape catalogue (all in the thorough tier; every exported constructor and blend option) is also built and rendered in a canonical and in 1..3 other fresh processes under other configurations. Oracle: every job's output digest (triangle sequence bits; STL/DXF/SVG bytes; decoded 3MF) equals the canonical digest of its signature. Non-trivial = a variant episode in which the scheduler had >= 2 choices at >= 1 step; distinct = trace hash."
 	pl.nontriv = func(o *runOut) (bool, string) {
 		if o.res == nil || o.sc.Note == "canonical" {
 			return false, ""
